@@ -28,15 +28,17 @@ def prop(pid, **kw):
 prop("C14",
      family="schema",
      mc=lambda tier: [("MC_Schema", _t(tier, "MC_Schema_quick.cfg", "MC_Schema_thorough.cfg")),
-                      ("MC_Schema", "MC_Schema_three.cfg"), ("MC_Schema", "MC_Schema_self.cfg")],
+                      ("MC_Schema", "MC_Schema_three.cfg"), ("MC_Schema", "MC_Schema_self.cfg"),
+                      ("MC_Schema", "MC_Schema_conf.cfg")],
      gen=lambda tier: [("MC_Schema", _t(tier, "Gen_Schema_quick.cfg", "Gen_Schema_thorough.cfg")),
-                       ("MC_Schema", "Gen_Schema_three.cfg"), ("MC_Schema", "Gen_Schema_self.cfg")],
+                       ("MC_Schema", "Gen_Schema_three.cfg"), ("MC_Schema", "Gen_Schema_self.cfg"),
+                       ("MC_Schema", "Gen_Schema_conf.cfg")],
      driver=lambda tier, seed, gen, out: ["schema", "-gen", gen, "-out", out, "-seed", str(seed)] +
      _t(tier, ["-sample", "400", "-walks", "100", "-depth", "40"],
         ["-sample", "6000", "-walks", "2000", "-depth", "60", "-lit"]),
      trace=("Trace_Schema", "Trace_Schema.cfg"),
      required=["AddType:ok", "AddType:err", "RemoveType:ok", "AddAttr:ok", "AddAttr:err", "AddRel:ok", "AddRel:err",
-               "AddTwoWayRel:ok", "AddTwoWayRel:err", "RemoveAttr:ok", "RemoveRel:ok", "Check:ok"],
+               "AddTwoWayRel:ok", "AddTwoWayRel:err", "RemoveAttr:ok", "RemoveRel:ok", "Check:ok", "names:0", "names:1"],
      level_text="TLC explores the complete state graph of the schema-edit specification over a bounded universe of "
                 "names and checks well-formedness, all-or-nothing, remove-absent-is-noop and the two-way "
                 "postcondition; every reachable abstract state (a seeded sample in the quick tier) is rebuilt in the "
